@@ -491,4 +491,96 @@ theorem clean_of_plain {rel : Comps} (hp : ∀ c ∈ rel, Plain c) (hd : dotdot 
   obtain ⟨h1, h2, h3⟩ := hp c hc
   exact ⟨h1, h2, fun e => hd (e ▸ hc), h3⟩
 
+
+/-- what a successful `resolve_path` went through: a relative, non-empty, clean target handed to the search loop -/
+theorem fslResolve_ok {cfg : FSLConfig} {fs : FS} {name : List Ch} {p : PPath} (h : fslResolve cfg fs name = .ok p) :
+    ∃ tp', tp'.root = 0 ∧ (parse name).root = 0 ∧ tp'.parts ≠ [] ∧ Clean tp'.parts ∧
+      tp'.parts.dropLast = (parse name).parts.dropLast ∧
+      fslSearch cfg.rejectSymlinks fs tp' cfg.search = .ok p := by
+  unfold fslResolve at h
+  simp only at h
+  split at h
+  · cases h
+  · rename_i hn
+    split at h
+    · cases h
+    · rename_i tp' ht
+      split at h
+      · cases h
+      · rename_i hchk
+        simp only [not_or, PPath.isAbsolute, decide_eq_true_eq, Nat.not_lt, Nat.le_zero_eq] at hchk
+        obtain ⟨hr, hne, hdl, hpl⟩ := fslTarget_ok ht hn (parse_parts_plain name)
+        exact ⟨tp', hchk.2, hr ▸ hchk.2, hne, clean_of_plain hpl hchk.1, hdl, h⟩
+
+/-- appending a suffix to the last component cannot create a `..` component (PackageLoader checks for `..`
+*before* `with_suffix`) -/
+theorem no_dotdot_after_suffix {tp tp' : PPath} {ext : Name} (hs : suffixOf tp.name = [])
+    (h : withSuffix tp ext = .ok tp') (hp : ∀ c ∈ tp.parts, Plain c) (hd : dotdot ∉ tp.parts) :
+    dotdot ∉ tp'.parts := by
+  obtain ⟨_, hnn, _, hparts⟩ := withSuffix_ok hs h
+  rw [hparts]
+  simp only [List.mem_append, List.mem_cons, List.not_mem_nil, or_false, not_or]
+  refine ⟨fun hm => hd ((List.dropLast_sublist _).subset hm), ?_⟩
+  intro e
+  have hmem := name_mem_parts hnn
+  have hpn := hp _ hmem
+  cases hnm : tp.name with
+  | nil => exact hnn hnm
+  | cons a as =>
+    rw [hnm] at e hmem hpn
+    cases as with
+    | nil =>
+      simp only [dotdot, List.cons_append, List.nil_append, List.cons.injEq] at e
+      exact hpn.2.1 (by rw [← e.1]; rfl)
+    | cons b bs =>
+      simp only [dotdot, List.cons_append, List.cons.injEq] at e
+      have hbs : bs = [] := by
+        cases bs with
+        | nil => rfl
+        | cons _ _ => simp at e
+      rw [hbs, ← e.1, ← e.2.1] at hmem
+      exact hd hmem
+
+theorem pkgResolve_ok {cfg : PkgConfig} {fs : FS} {name : List Ch} {p : PPath} (h : pkgResolve cfg fs name = .ok p) :
+    ∃ tp', tp'.root = 0 ∧ (parse name).root = 0 ∧ tp'.parts ≠ [] ∧ Clean tp'.parts ∧
+      tp'.parts.dropLast = (parse name).parts.dropLast ∧
+      pkgSearch fs tp' cfg.paths = .ok p := by
+  unfold pkgResolve at h
+  simp only at h
+  split at h
+  · cases h
+  · rename_i hn
+    split at h
+    · cases h
+    · rename_i hchk
+      simp only [not_or, PPath.isAbsolute, decide_eq_true_eq, Nat.not_lt, Nat.le_zero_eq] at hchk
+      split at h
+      · cases h
+      · rename_i tp' ht
+        split at ht
+        · rename_i hs
+          obtain ⟨hr, hne, hdl, hpl⟩ := withSuffix_parts_plain hs ht (Or.inr trivial) (parse_parts_plain name)
+          exact ⟨tp', hr.trans hchk.2, hchk.2, hne,
+            clean_of_plain hpl (no_dotdot_after_suffix hs ht (parse_parts_plain name) hchk.1), hdl, h⟩
+        · cases ht
+          exact ⟨_, hchk.2, hchk.2, parts_ne_nil_of_name hn, clean_of_plain (parse_parts_plain name) hchk.1, rfl, h⟩
+
+/-- the candidate `base/rel` read by a loader: where its bytes come from -/
+theorem read_factors {fs : FS} {base : PPath} {rel : Comps} {c : Nat} (hne : rel ≠ [])
+    (hk : kstat fs ⟨base.root, base.parts ++ rel⟩ = .ok (.file c)) :
+    ∃ f1 m f q, walk false fs.root fs.maxLinks (fs.start base) base.parts = .ok (f1, m) ∧
+      walk false fs.root f1 m rel = .ok (f, q) ∧ nodeAt fs.root q = some (.file c) ∧
+      isDir (nodeAt fs.root m) = true ∧
+      walk false fs.root fs.maxLinks (fs.start ⟨base.root, base.parts ++ rel⟩) (base.parts ++ rel) = .ok (f, q) ∧
+      pyResolve fs ⟨base.root, base.parts ++ rel⟩ = .ok q ∧ pyResolve fs base = .ok m := by
+  obtain ⟨f1, m, f, q, hw1, hw2, hnode, hr, hb⟩ := stat_factors hk
+  have hbase : (⟨base.root, base.parts⟩ : PPath) = base := rfl
+  rw [hbase] at hw1 hb
+  refine ⟨f1, m, f, q, hw1, hw2, hnode, ?_, ?_, hr, hb⟩
+  · cases rel with
+    | nil => exact absurd rfl hne
+    | cons c0 rest => exact walk_strict_isDir _ _ _ _ _ _ hw2
+  · have hs0 : fs.start ⟨base.root, base.parts ++ rel⟩ = fs.start base := rfl
+    rw [hs0, walk_append, hw1]; exact hw2
+
 end LiquidVerif.PathSafe
